@@ -4,13 +4,25 @@
 //! the implementation's canonical answers, oracle verdict).
 mod interpose;
 mod util;
-mod frag;
-mod value;
-mod wire;
-mod router;
-mod sched;
+mod world;
+#[cfg(not(feature = "force-inprocess"))]
 mod crash;
+#[cfg(not(feature = "force-inprocess"))]
+mod frag;
+#[cfg(not(feature = "force-inprocess"))]
 mod recvset;
+#[cfg(not(feature = "force-inprocess"))]
+mod res;
+#[cfg(not(feature = "force-inprocess"))]
+mod router;
+#[cfg(not(feature = "force-inprocess"))]
+mod sched;
+#[cfg(not(feature = "force-inprocess"))]
+mod value;
+#[cfg(not(feature = "force-inprocess"))]
+mod vanish;
+#[cfg(not(feature = "force-inprocess"))]
+mod wire;
 
 fn main() {
     let args: Vec<String> = std::env::args().collect();
@@ -19,13 +31,27 @@ fn main() {
         std::process::exit(2);
     }
     match args[1].as_str() {
+        "world" => world::run(&args[2..]),
+        #[cfg(not(feature = "force-inprocess"))]
         "frag" => frag::run(&args[2..]),
+        #[cfg(not(feature = "force-inprocess"))]
         "wire" => wire::run(&args[2..]),
+        #[cfg(not(feature = "force-inprocess"))]
         "router" => router::run(&args[2..]),
+        #[cfg(not(feature = "force-inprocess"))]
         "sched" => sched::run(&args[2..]),
+        #[cfg(not(feature = "force-inprocess"))]
         "crash" => crash::run(&args[2..]),
-        "set" => recvset::run(&args[2..]),
+        #[cfg(not(feature = "force-inprocess"))]
         "crashchild" => crash::child(&args[2..]),
+        #[cfg(not(feature = "force-inprocess"))]
+        "set" => recvset::run(&args[2..]),
+        #[cfg(not(feature = "force-inprocess"))]
+        "res" => res::run(&args[2..]),
+        #[cfg(not(feature = "force-inprocess"))]
+        "vanish" => vanish::run(&args[2..]),
+        #[cfg(not(feature = "force-inprocess"))]
+        "vanishchild" => vanish::child(&args[2..]),
         s => {
             eprintln!("unknown scenario {}", s);
             std::process::exit(2);
